@@ -6,12 +6,16 @@ From Cfg Require Import Model.Merge Model.MergeSpec Proofs.Merge Model.Positione
 Import ListNotations.
 Open Scope N_scope.
 
+Ltac nb H Hnb Hcw :=
+  unfold step, emit_push in H; rewrite ?Hnb in H; rewrite ?Hcw in H; cbn [app emits] in H; cbv iota in H.
+
 Lemma sinv_not_replied_at_check : forall c s p lag ph,
+  c_pos c = true ->
   SInv c s -> dl s = DPub p lag ph -> ph <> PSync -> po p <> 0 -> in_window (pc s) = false.
 Proof.
-  intros c s p lag ph I Hd Hph Hp0.
+  intros c s p lag ph Hpos I Hd Hph Hp0.
   destruct (in_window (pc s)) eqn:E; [|reflexivity]. exfalso.
-  pose proof (i_entry_pc c s I E) as He.
+  pose proof (i_entry_pc c s I Hpos E) as He.
   destruct (i_entry_dl c s I He p lag ph Hd) as [X|[_ X]]; contradiction.
 Qed.
 
@@ -90,10 +94,11 @@ Proof.
       eapply Forall_impl; [|exact B]. intros; cbn in *; lia.
 Qed.
 
-Lemma closed_mono : forall c s l s', step c s l = Some s' -> closed s = true -> closed s' = true.
+Lemma closed_mono : forall c s l s', c_batch c = false -> cw s = [] ->
+  step c s l = Some s' -> closed s = true -> closed s' = true.
 Proof.
-  intros c s l s' H Ec.
-  destruct l; unfold step in H; break_step H; inv_some H;
+  intros c s l s' Hnb Hcw H Ec.
+  destruct l; nb H Hnb Hcw; break_step H; inv_some H;
     rewrite ?emits_eq, ?emit_eq, ?Ec;
     try match goal with |- context [check_pub ?c ?s ?p ?lag] =>
           pose proof (check_pub_fields c s p lag) as F; cbv zeta in F;
@@ -101,11 +106,12 @@ Proof.
     unf; unfold with_log; cbn; try rewrite Ec; try reflexivity; try assumption; try congruence.
 Qed.
 
-Lemma step_log_closed : forall c s l s', step c s l = Some s' -> closed s' = true ->
+Lemma step_log_closed : forall c s l s', c_batch c = false -> cw s = [] ->
+  step c s l = Some s' -> closed s' = true ->
   recv (log s') = recv (log s).
 Proof.
-  intros c s l s' H Hc'.
-  destruct l; unfold step in H; break_step H; inv_some H;
+  intros c s l s' Hnb Hcw H Hc'.
+  destruct l; nb H Hnb Hcw; break_step H; inv_some H;
     rewrite ?emits_eq, ?emit_eq in *;
     try match goal with |- context [check_pub ?c ?s ?p ?lag] =>
           pose proof (check_pub_fields c s p lag) as F; cbv zeta in F;
@@ -120,9 +126,11 @@ Lemma step_pc_res : forall c s l s' r, good c -> MInv c s -> step c s l = Some s
   pc_res (pc s') = Some r -> res_ok' c (g_log s') r.
 Proof.
   intros c s l s' r Hgood I H Hr.
+  assert (Hnb : c_batch c = false) by apply Hgood.
+  assert (Hcw : cw s = []) by (apply (i_cw_nil c s (m_s c s I)); exact Hnb).
   assert (Hkeep : pc_res (pc s) = Some r -> incl (g_log s) (g_log s') -> res_ok' c (g_log s') r).
   { intros E Hi. eapply res_ok_mono; [exact Hi|]. apply (m_res c s I). exact E. }
-  destruct l; unfold step in H; break_step H; inv_some H.
+  destruct l; nb H Hnb Hcw; break_step H; inv_some H.
   all: rewrite ?emits_eq, ?emit_eq in *.
   all: repeat match goal with |- context [if closed ?s then _ else _] => destruct (closed s) eqn:? end.
   all: repeat match goal with H : context [if closed ?s then _ else _] |- _ => destruct (closed s) eqn:? end.
@@ -134,7 +142,7 @@ Proof.
   all: try (apply Hkeep; [congruence|apply incl_refl]).
   all: try discriminate.
   all: try (apply (m_res c s I); assumption).
-  all: destruct Hgood as (Hpos & Hg2 & Hg3); try congruence.
+  all: destruct Hgood as (Hpos & Hg2 & Hg3 & _); try congruence.
   inv_some Hr.
   match goal with E : pc s = SHist ?h |- _ => destruct (i_hist c s (m_s c s I) h E) as [Hprov Hwf] end.
   match goal with E : do_merge _ _ _ = Some _ |- _ => rename E into Hm end.
@@ -144,11 +152,12 @@ Proof.
   apply (i_buf c s (m_s c s I)). exact Hp.
 Qed.
 
-Lemma step_srv : forall c s l s' r, c_pos c = true -> MInv c s -> step c s l = Some s' ->
+Lemma step_srv : forall c s l s' r, c_pos c = true -> c_batch c = false -> MInv c s -> step c s l = Some s' ->
   pc s' = SSrvCommitted r -> g_pos s' = r_pos r /\ c_var c = VServer.
 Proof.
-  intros c s l s' r Hpos I H Hr.
-  destruct l; unfold step in H; break_step H; inv_some H.
+  intros c s l s' r Hpos Hnb I H Hr.
+  assert (Hcw : cw s = []) by (apply (i_cw_nil c s (m_s c s I)); exact Hnb).
+  destruct l; nb H Hnb Hcw; break_step H; inv_some H.
   all: rewrite ?emits_eq, ?emit_eq in *.
   all: repeat match goal with |- context [if closed ?s then _ else _] => destruct (closed s) eqn:? end.
   all: repeat match goal with H : context [if closed ?s then _ else _] |- _ => destruct (closed s) eqn:? end.
@@ -160,7 +169,7 @@ Proof.
     pose proof (check_pub_fields c s p lag) as F; cbv zeta in F.
     destruct F as (_ & _ & _ & _ & _ & _ & _ & _ & _ & _ & F11 & _). rewrite F11 in Hr.
     assert (Hw : in_window (pc s) = true) by (rewrite Hr; reflexivity).
-    pose proof (i_entry_pc c s (m_s c s I) Hw) as He.
+    pose proof (i_entry_pc c s (m_s c s I) Hpos Hw) as He.
     match goal with E : dl s = DPub _ _ PCheck |- _ =>
       destruct (i_entry_dl c s (m_s c s I) He _ _ _ E) as [X|[X _]]; discriminate end.
   - inv_some Hr. split; reflexivity.
@@ -195,10 +204,11 @@ Ltac frame_tac HR :=
 Lemma minv_step : forall c s l s', good c -> MInv c s -> step c s l = Some s' -> MInv c s'.
 Proof.
   intros c s l s' Hgood I H.
-  pose proof Hgood as (Hpos & Hanch & Hsrv).
+  pose proof Hgood as (Hpos & Hanch & Hsrv & Hnb).
+  assert (Hcw : cw s = []) by (apply (i_cw_nil c s (m_s c s I)); exact Hnb).
   assert (HS' : SInv c s') by (eapply sinv_step; eauto; apply (m_s c s I)).
   assert (Hincl : incl (g_log s) (g_log s')).
-  { clear - H. destruct l; unfold step in H; break_step H; inv_some H;
+  { clear - H Hnb Hcw. destruct l; nb H Hnb Hcw; break_step H; inv_some H;
       try rewrite !emits_eq; try rewrite !emit_eq;
       repeat match goal with |- context [if closed ?s then _ else _] => destruct (closed s) eqn:? end;
       try match goal with |- context [check_pub ?c ?s ?p ?lag] =>
@@ -209,8 +219,8 @@ Proof.
   assert (HR' : closed s' = false -> RecvInv s').
   { intros Hc'.
     assert (Hc : closed s = false).
-    { destruct (closed s) eqn:Ec; [|reflexivity]. rewrite (closed_mono _ _ _ _ H Ec) in Hc'. discriminate. }
-    destruct l; unfold step in H; break_step H; inv_some H; boolfix.
+    { destruct (closed s) eqn:Ec; [|reflexivity]. rewrite (closed_mono _ _ _ _ Hnb Hcw H Ec) in Hc'. discriminate. }
+    destruct l; nb H Hnb Hcw; break_step H; inv_some H; boolfix.
     all: destruct I as [IS Ires Isrv Irecv0 Ispec];
          assert (Irecv : RecvInv s) by (apply Irecv0; first [exact Hc | assumption]); clear Irecv0.
     all: try rewrite !emits_eq; try rewrite !emit_eq; unfold set_pending; cbn [closed with_log]; try rewrite !Hc.
@@ -249,7 +259,7 @@ Proof.
     - (* LWriteReply *)
       match goal with E : pc s = SMerged ?r |- _ => rename E into Hpc end.
       assert (Hns : has_start (log s) = false) by (apply (i_prestart c s IS); rewrite Hpc; reflexivity).
-      assert (He : ps_entry s = true) by (apply (i_entry_pc c s IS); rewrite Hpc; reflexivity).
+      assert (He : ps_entry s = true) by (apply (i_entry_pc c s IS Hpos); rewrite Hpc; reflexivity).
       assert (Hres : res_ok' c (g_log s) r) by (apply Ires; rewrite Hpc; reflexivity).
       destruct Hres as (Hok & _).
       eapply (recvinv_of_res _ (g_log s) r (map po (r_pubs r)) true); try reflexivity; try exact Hok.
@@ -264,7 +274,7 @@ Proof.
     - (* LSrvPush, patched: recovered publications follow the push *)
       match goal with E : pc s = SSrvCommitted ?r |- _ => rename E into Hpc end.
       assert (Hns : has_start (log s) = false) by (apply (i_prestart c s IS); rewrite Hpc; reflexivity).
-      assert (He : ps_entry s = true) by (apply (i_entry_pc c s IS); rewrite Hpc; reflexivity).
+      assert (He : ps_entry s = true) by (apply (i_entry_pc c s IS Hpos); rewrite Hpc; reflexivity).
       assert (Hres : res_ok' c (g_log s) r) by (apply Ires; rewrite Hpc; reflexivity).
       destruct Hres as (Hok & Hf1 & Hf2).
       destruct (Isrv r Hpc) as [Hgp Hvar].
@@ -281,7 +291,7 @@ Proof.
       match goal with E : pc s = SSrvCommitted ?r |- _ => rename E into Hpc end.
       match goal with E : c_fix_srvpubs c = false |- _ => rename E into Hnf end.
       assert (Hns : has_start (log s) = false) by (apply (i_prestart c s IS); rewrite Hpc; reflexivity).
-      assert (He : ps_entry s = true) by (apply (i_entry_pc c s IS); rewrite Hpc; reflexivity).
+      assert (He : ps_entry s = true) by (apply (i_entry_pc c s IS Hpos); rewrite Hpc; reflexivity).
       assert (Hres : res_ok' c (g_log s) r) by (apply Ires; rewrite Hpc; reflexivity).
       destruct Hres as (Hok & Hf1 & Hf2).
       destruct (Isrv r Hpc) as [Hgp Hvar].
